@@ -3,8 +3,7 @@
   bookkeeping of `PSym.mk'` / `PSym.mul` (proper part, inversion flag, time-reversal flag).
 -/
 import WB.Model.C09
-import Mathlib.LinearAlgebra.Matrix.Determinant.Basic
-import Mathlib.LinearAlgebra.Matrix.NonsingularInverse
+import Mathlib.Algebra.BigOperators.Fin
 import Mathlib.Algebra.Order.Field.Basic
 import Mathlib.Tactic.Ring
 import Mathlib.Tactic.Linarith
@@ -16,9 +15,6 @@ set_option linter.unusedSimpArgs false
 
 namespace WB.C09
 
-/-- a model matrix read as a Mathlib matrix (definitionally the same function) -/
-def toM {F : Type} (A : Mat F) : Matrix (Fin 3) (Fin 3) F := A
-
 section Ring
 variable {F : Type} [CommRing F]
 
@@ -28,15 +24,6 @@ theorem freeze_eq (A : Mat F) : freeze A = A := by
 
 theorem sum3_eq_sum (f : Fin 3 → F) : sum3 f = ∑ i, f i := by
   rw [Fin.sum_univ_three]; rfl
-
-/-- the model's matrix product is Mathlib's -/
-theorem matMul_eq (A B : Mat F) : matMul A B = toM A * toM B := by
-  funext i j
-  simp only [matMul, sum3_eq_sum]
-  exact (Matrix.mul_apply (M := toM A) (N := toM B)).symm
-
-theorem det3_eq (A : Mat F) : det3 A = Matrix.det (toM A) := by
-  rw [Matrix.det_fin_three (toM A)]; unfold det3 toM; ring
 
 theorem matMul_assoc (A B C : Mat F) : matMul (matMul A B) C = matMul A (matMul B C) := by
   funext i j; simp only [matMul, sum3]; ring
